@@ -1,11 +1,15 @@
 (** C06  Crash recovery.  Every durable mutation of the model is a write unit; a crash keeps a
     prefix of the units of the running operation and loses the volatile state; [restart] is
     loadChainData + cdb.recover + sdb.Init(best) + Recover.
-    Proved in full: restart on any consistent store; every crash point of a main-chain connection.
-    The reorganisation crash points (marker protocol) are covered on the implementation by the
-    journal engine for every prefix (see checks/C06.py); their Coq proof is not done (partial). *)
+    Proved: restart on any consistent store; every crash point of a main-chain connection, of a
+    main-chain orphan-resolution run, of side-branch stores / state commits / receipts, and of a
+    reorganisation of any depth (every prefix of: rollforward state commits and receipts, marker write,
+    deleteOldReceipts, swapTxMapping, swapChainMapping bulk, marker delete), with crash_best_legit and
+    state_available; crash_replay_converges for main-chain connection and for reorg crashes after the
+    marker (the restart already holds the crash-free store); refuted for reorg crashes before the marker
+    (known finding).  Bulk flushes and committed transactions are atomic units (no partial flush). *)
 From Coq Require Import NArith List Bool.
-From Verif Require Import ChainDB.Model ChainDB.Inv ChainDB.Crash.
+From Verif Require Import ChainDB.Model ChainDB.Inv ChainDB.Reorg ChainDB.Crash ChainDB.CrashReorg ChainDB.RefuteFork.
 Import ListNotations.
 Open Scope N_scope.
 
@@ -46,3 +50,106 @@ Theorem C06_connect_units_exact :
   jlog n' = rev (connect_units b) ++ jlog n /\ dur n' = replay (dur n) (connect_units b).
 Proof. exact connect_main_units. Qed.
 Print Assumptions C06_connect_units_exact.
+
+(** Every crash point of a sequence of state commits, receipt writes and side-branch stores (an
+    orphan-resolution run on a side branch; the rollback/rollforward part of a reorganisation):
+    restart on the old tip, invariant, state available. *)
+Theorem C06_crash_benign_prefix_inv :
+  forall (apply : sroot -> block -> option sroot) (spent : sroot -> txid -> bool),
+  (forall r b r', apply r b = Some r' -> NoDup (txs b) /\ forall t, In t (txs b) -> spent r t = false) ->
+  (forall r b r' t, apply r b = Some r' -> spent r' t = spent r t || mem t (txs b)) ->
+  forall (U : block -> Prop), (forall a b, U a -> U b -> hash_field a = hash_field b -> a = b) ->
+  forall (g : block),
+  forall f7 n us k, Inv apply spent U g n -> Forall (benign_unit U) us ->
+  exists r, restart f7 (crash k (dur n) us) = Some (StartOk r) /\ Inv apply spent U g r /\ best r = best n /\
+            has_state_marker (dur r) (root (best r)) = true.
+Proof. intros; eapply crash_benign_prefix_inv; eauto. Qed.
+Print Assumptions C06_crash_benign_prefix_inv.
+
+(** Every crash point of a main-chain orphan-resolution run (the starting block and the parked
+    descendants it connects, any length): restart on the old tip or on one of the connected blocks. *)
+Theorem C06_crash_main_run_inv :
+  forall (apply : sroot -> block -> option sroot) (spent : sroot -> txid -> bool),
+  (forall r b r', apply r b = Some r' -> NoDup (txs b) /\ forall t, In t (txs b) -> spent r t = false) ->
+  (forall r b r' t, apply r b = Some r' -> spent r' t = spent r t || mem t (txs b)) ->
+  forall (U : block -> Prop), (forall a b, U a -> U b -> hash_field a = hash_field b -> a = b) ->
+  forall (g : block),
+  forall f7 bs n n' k, Inv apply spent U g n -> linked (best n) bs -> (forall b, In b bs -> U b) ->
+  connect_seq apply n bs = Some n' ->
+  exists r, restart f7 (crash k (dur n) (concat (map connect_units bs))) = Some (StartOk r) /\ Inv apply spent U g r /\
+            (best r = best n \/ In (best r) bs) /\ has_state_marker (dur r) (root (best r)) = true.
+Proof. intros; eapply crash_main_run_inv; eauto. Qed.
+Print Assumptions C06_crash_main_run_inv.
+
+(** crash_reorg_inv + crash_best_legit + state_available: EVERY prefix of the write units of a
+    reorganisation of any depth.  Before the marker: old tip.  After it: the marker-driven recovery
+    (RecoverChainMapping when the height bulk had been flushed, then recoverReorg) ends on the new tip
+    holding exactly the crash-free final store. *)
+Theorem C06_crash_reorg_inv :
+  forall (apply : sroot -> block -> option sroot) (spent : sroot -> txid -> bool),
+  (forall r b r', apply r b = Some r' -> NoDup (txs b) /\ forall t, In t (txs b) -> spent r t = false) ->
+  (forall r b r' t, apply r b = Some r' -> spent r' t = spent r t || mem t (txs b)) ->
+  forall (U : block -> Prop), (forall a b, U a -> U b -> hash_field a = hash_field b -> a = b) ->
+  forall (g : block),
+  forall n, Inv apply spent U g n ->
+  forall top st news olds, U top -> get_block (dur n) (hash_field top) = Some top -> no (best n) < no top ->
+  gather (S (N.to_nat (no top))) (dur n) (no (best n)) top [] [] = Some (st, news, olds) ->
+  forall n2, rollforward apply (set_sdb n (root st)) (rev news) = (n2, true) ->
+  let m := mkMarker (hash_field st) (no st) (hash_field (best n)) (no (best n)) (hash_field top) (no top) in
+  forall k, exists r,
+    restart true (crash k (dur n) (rf_units (rev news) ++ swap_units m top news olds)) = Some (StartOk r) /\
+    Inv apply spent U g r /\
+    ((best r = best n /\ (k <= length (rf_units (rev news)))%nat) \/
+     (best r = top /\ (length (rf_units (rev news)) < k)%nat /\
+      forall key, dur r key = dur (swap_chain n2 m top news olds false) key)) /\
+    has_state_marker (dur r) (root (best r)) = true.
+Proof. intros; eapply crash_reorg_inv; eauto. Qed.
+Print Assumptions C06_crash_reorg_inv.
+
+(** These are the units of [reorg]: its result store is their replay. *)
+Theorem C06_reorg_units_exact :
+  forall (apply : sroot -> block -> option sroot) n top st news olds n2,
+  gather (S (N.to_nat (no top))) (dur n) (no (best n)) top [] [] = Some (st, news, olds) ->
+  (no st <? lib n) = false ->
+  rollforward apply (set_sdb n (root st)) (rev news) = (n2, true) ->
+  let m := mkMarker (hash_field st) (no st) (hash_field (best n)) (no (best n)) (hash_field top) (no top) in
+  reorg apply true n top = (swap_chain n2 m top news olds false, false) /\
+  dur (swap_chain n2 m top news olds false) = replay (dur n) (rf_units (rev news) ++ swap_units m top news olds).
+Proof. exact reorg_units_exact. Qed.
+Print Assumptions C06_reorg_units_exact.
+
+(** crash_replay_converges, main-chain connection: after a crash at any unit boundary, feeding the
+    block again reaches exactly the crash-free durable state. *)
+Theorem C06_crash_replay_converges_connect :
+  forall (apply : sroot -> block -> option sroot) (spent : sroot -> txid -> bool),
+  (forall r b r', apply r b = Some r' -> NoDup (txs b) /\ forall t, In t (txs b) -> spent r t = false) ->
+  (forall r b r' t, apply r b = Some r' -> spent r' t = spent r t || mem t (txs b)) ->
+  forall (U : block -> Prop), (forall a b, U a -> U b -> hash_field a = hash_field b -> a = b) ->
+  forall (g : block),
+  forall f7 n b n' k, Inv apply spent U g n -> U b -> prev b = hash_field (best n) -> no b = no (best n) + 1 ->
+  connect_main apply n b = Some n' ->
+  exists r, restart f7 (crash k (dur n) (connect_units b)) = Some (StartOk r) /\
+    ((best r = b /\ forall key, dur r key = dur n' key) \/
+     (best r = best n /\ exists r', connect_main apply r b = Some r' /\ best r' = b /\
+                                     forall key, dur r' key = dur n' key)).
+Proof. intros; eapply crash_replay_converges_connect; eauto. Qed.
+Print Assumptions C06_crash_replay_converges_connect.
+
+(** crash_replay_converges is false for a crash during a reorganisation before the marker write. *)
+Theorem C06_crash_replay_converges_refuted :
+  exists (apply : sroot -> block -> option sroot) (spent : sroot -> txid -> bool) (U : block -> Prop) (g : block)
+         (n : node) (b : block) (k : nat),
+    (forall r b r', apply r b = Some r' -> NoDup (txs b) /\ forall t, In t (txs b) -> spent r t = false) /\
+    (forall r b r' t, apply r b = Some r' -> spent r' t = spent r t || mem t (txs b)) /\
+    (forall a b, U a -> U b -> hash_field a = hash_field b -> a = b) /\
+    Inv apply spent U g n /\ U b /\ no b <> 0 /\
+    let n' := fst (add_block apply true 100 n b) in
+    hash_field (best n') = hash_field b /\
+    match restart true (crash k (dur n) (units_since n n')) with
+    | Some (StartOk r) =>
+        snd (add_block apply true 100 r b) = RKnown /\
+        hash_field (best (fst (add_block apply true 100 r b))) <> hash_field (best n')
+    | _ => False
+    end.
+Proof. exact crash_replay_converges_refuted. Qed.
+Print Assumptions C06_crash_replay_converges_refuted.
